@@ -819,9 +819,12 @@ pub fn check(opts: &CheckOpts) -> i32 {
         },
         "assumptions": info.assumptions,
     });
-    let dir = format!("{VERIF_DIR}/evidence");
-    let _ = std::fs::create_dir_all(&dir);
-    std::fs::write(format!("{dir}/{prop}.json"), serde_json::to_vec_pretty(&evidence).unwrap()).expect("write evidence");
+    if std::env::var_os("VERIF_NO_EVIDENCE").is_none() {
+        // (mutation experiments set VERIF_NO_EVIDENCE so that committed evidence always comes from the real tree)
+        let dir = format!("{VERIF_DIR}/evidence");
+        let _ = std::fs::create_dir_all(&dir);
+        std::fs::write(format!("{dir}/{prop}.json"), serde_json::to_vec_pretty(&evidence).unwrap()).expect("write evidence");
+    }
 
     println!(
         "{prop} {}: {} runs in {:.1}s ({:.0}/s), {} distinct non-trivial scenarios, {} distinct schedules, ok={} discarded={} inconclusive={} known-hits={:?} new-violation-signatures={}",
